@@ -40,6 +40,9 @@ Fixpoint hx_list (l : list ascii) : bytes :=
   end.
 Definition hx (s : string) : bytes := hx_list (list_ascii_of_string s).
 
+(* long runs of one byte are written (rep n (hx "61")) by the harness *)
+Definition rep (n : N) (b : bytes) : bytes := concat (repeat b (N.to_nat n)).
+
 (* ---- character helpers ---- *)
 Definition is_digit (b : byte) : bool := let n := b2n b in (48 <=? n) && (n <=? 57).
 Definition ch (s : string) : byte := match s with String a _ => a | EmptyString => zero end.
